@@ -43,11 +43,13 @@ RULE = ('exhaustive: every utility decorator x {def, async def} x signature shap
         'comparing decorators above and below, as method argument / property value of a traced class, as generator argument, and in 15 % of the seeded stacks.  '
         'non-trivial = at least one call reached a decorator')
 EXHAUSTIVE = {'quick': True, 'thorough': True}
-ASSUMPTIONS = ['__repr__ / __str__ / __eq__ / __ne__ of argument / result objects are side-effect free; they MAY raise (modelled: Traits; the decorators that '
-               'format or compare what passes through them then raise where the undecorated callable does not: findings traceFormatsArgumentsAndResults, '
-               'comparisonsCallUserEq); all objects of a run are of one class, so a comparison runs the method of its left operand',
+ASSUMPTIONS = ['__repr__ / __str__ / __eq__ / __ne__ of argument / result objects are side-effect free; they MAY raise (modelled: Traits).  Formatting goes through the '
+               'never-raising display wrapper helper_methods._Shown (repair of traceFormatsArgumentsAndResults: a formatting exception escaping from a decorated call is a '
+               'violation); the decorators that COMPARE what passes through them raise where the undecorated callable does not (finding comparisonsCallUserEq); all objects '
+               'of a run are of one class, so a comparison runs the method of its left operand',
                'a class whose metaclass overrides __dir__ (it states its own dir() listing) is outside the specification of `overrides` (unspec): only model = implementation is checked there',
-               'a refusal by require_kwargs whose message cannot be formatted (an argument\'s __repr__ raises) is reported under traceFormatsArgumentsAndResults',
+               'a refusal by require_kwargs counts as a refusal also when building its message fails on an argument whose __repr__ raises (FunctionCall.assert_uses_kwargs still '
+               'formats the refused arguments themselves: generated fact refusalMessageFormatsRawArguments, followed by the model; message and class of a refusal are C05\'s subject)',
                'ENABLE_PEDANTIC is unset (for_all_methods consults it: C09)',
                'bodies do not suspend (coroutines complete on their first step); event-loop interleaving is out of scope',
                'for require_kwargs WHICH positional calls are refused is C05; C18 claims: a positional call is either refused with PedanticCallWithArgsException '
@@ -1837,7 +1839,10 @@ def judge_prop(case, impl, model):
             why.append(f'operation {k}: the undecorated class differs from the specification of a property: {t} vs {sc}')
             break
         what = {'get': 'reading obj.target', 'set': 'obj.target = v', 'del': 'del obj.target'}[pr['ops'][k][0]]
-        if c['acc'] != sc['acc']:
+        if c['res'] != sc['res'] and c['res'][:2] == ['exc', 'lib'] and c['res'][2:3] and c['res'][2] in FINDING_OF:
+            pfail = (f"operation {k}: {what} raised {c['res'][2]} — the exception of the object's own method, run by the wrapper of the accessor — "
+                     f"instead of {sc['res']} (accessors of the property: {[n for n, a in zip(('getter', 'setter', 'deleter'), pr['acc']) if a]})")
+        elif c['acc'] != sc['acc']:
             pfail = f"operation {k}: {what} ran {names.get(c['acc'], c['acc'])} instead of {names[sc['acc']]} (accessors of the property: {[n for n, a in zip(('getter', 'setter', 'deleter'), pr['acc']) if a]})"
         elif body_events(c['evs']) != [norm_ev(e) for e in sc['calls']]:
             pfail = f"operation {k}: {what}: accessor invocations {body_events(c['evs'])} instead of {sc['calls']}"
@@ -2035,7 +2040,7 @@ def judge_shared(case, impl, model):
             if sc['unspec']:
                 break
             ic = norm_call(ic)
-            if sc.get('mayReject') and ic['res'] == REJECTED and not body_events(ic['evs']):
+            if refused(sc, ic, norm_call(m['calls'][k]) if k < len(m['calls']) else None, x):
                 break
             who = f"call {k} (deco(fn{sh['calls'][k][0]}) after deco was applied to all functions)"
             if body_events(ic['evs']) != [norm_ev(e) for e in sc['calls']]:
@@ -2100,7 +2105,7 @@ def judge_gen(case, impl, model):
                 if sc['unspec']:
                     break
                 ic = norm(ic)
-                if sc.get('mayReject') and ic['res'] == REJECTED and not body_events(ic['evs']):
+                if refused(sc, ic, norm(m['calls'][k]) if (md is None and k < len(m['calls'])) else None, x):
                     break
                 ops = x['gen']['ops'][k]
                 if ic['res'][:1] != sc['res'][:1] or (ic['res'] != sc['res'] and sc['res'][:1] != ['gen']):
@@ -2348,23 +2353,32 @@ def judge_staged(case, impl, model):
     return {'corr': corr, 'pfail': pfail, 'finding': None, 'tag': tag, 'nontrivial': any(st['styles'] for st in x['staged']), 'why': '; '.join(why)}
 
 
-FORMATTERS = {'trace', 'trace_if_returns', 'does_same_as_function', 'require_kwargs'}      # format arguments / results (require_kwargs: in its refusal)
 COMPARERS = {'trace_if_returns', 'does_same_as_function'}                                 # compare the result with ==, !=
+REFUSAL_UNFORMATTABLE = ['exc', 'lib', 'ReprErr']
+
+
+def refused(sc, ic, mc, x):
+    """the call was refused by require_kwargs before anything underneath ran: with PedanticCallWithArgsException — or, as long as
+    FunctionCall.assert_uses_kwargs formats the refused arguments themselves (generated fact refusalMessageFormatsRawArguments, which the
+    model follows: it predicts the same outcome), with the exception of an argument's __repr__ while that message is built.  Which calls
+    are refused, and with which message, is C05's subject (pending repair `messages_never_raise` of function_call.py)."""
+    if not sc.get('mayReject') or body_events(ic['evs']):
+        return False
+    if ic['res'] == REJECTED:
+        return True
+    return bool(x.get('bad')) and ic['res'] == REFUSAL_UNFORMATTABLE and mc is not None and mc['res'] == REFUSAL_UNFORMATTABLE
 
 
 def user_method_finding(x, call):
-    """a call of a case with objects whose methods raise came out as the exception of such a method, and a decorator that is recorded
-    to format / compare what passes through it is in the stack: which finding that is (any other decorator doing so is a violation)"""
+    """a call of a case with objects whose methods raise came out as the exception of `__eq__` / `__ne__`, and a decorator that is recorded
+    to compare what passes through it is in the stack: the finding (any other decorator doing so is a violation)"""
     if not x.get('bad') or not call:
         return None
     r = call['res']
     f = FINDING_OF.get(r[2]) if r[:2] == ['exc', 'lib'] and len(r) > 2 else None
     names = {l['d'] for l in x.get('layers', [])}
-    m = x.get('member') or x.get('prop')
-    if m and m.get('cdeco') == 'trace_class':
-        names.add('trace')
-    if f == FORMAT_FINDING and names & FORMATTERS:
-        return f
+    # formatting (`__repr__` / `__str__`) is no finding any more: every decorator formats through the never-raising display wrapper
+    # (repair of traceFormatsArgumentsAndResults); a formatting exception that escapes from a decorated call is a violation
     if f == COMPARE_FINDING and names & COMPARERS:
         return f
     return None
@@ -2482,12 +2496,10 @@ def judge(case, impl, model):
                 if sc['unspec']:
                     break
                 ic = norm_call(ic)
-                if sc.get('mayReject') and ic['res'] == REJECTED and not body_events(ic['evs']):
+                if refused(sc, ic, norm_call(m['calls'][k]) if (md is None and k < len(m['calls'])) else None, x):
                     break       # refused by require_kwargs before anything underneath ran (which calls are refused: C05); the history is not followed further
                 fail_k = k
-                if sc.get('mayReject') and ic['res'] == ['exc', 'lib', 'ReprErr'] and not body_events(ic['evs']) and x.get('bad'):
-                    pfail = f"call {k}: the refusal of the positional call raised the exception of an argument's __repr__ instead of PedanticCallWithArgsException"
-                elif body_events(ic['evs']) != [norm_ev(e) for e in sc['calls']]:
+                if body_events(ic['evs']) != [norm_ev(e) for e in sc['calls']]:
                     pfail = f"call {k}: body invocations {body_events(ic['evs'])} instead of {sc['calls']}"
                 elif ic['res'] != sc['res']:
                     pfail = f"call {k}: caller saw {ic['res']} instead of {sc['res']}"
